@@ -57,12 +57,19 @@ def filtersOk (e : Entity) : Bool :=
   | none => true
   | some q => q.filters.all fun f => e.statuses.contains f
 
+/-- `statusEnumField.ListRules.Filtering.DefaultFilters`: `findStatus` of every default status
+filter = `<SCREAMING_SNAKE(entity)>_STATUS_` + the status name as written -/
+def defaultFilters (e : Entity) : List Str :=
+  match e.query with
+  | none => []
+  | some q => q.filters.map fun f => statusPrefix e ++ f
+
 def stateObject (e : Entity) : ObjDecl :=
   .mk (componentName e b!"State")
     [ .mk b!"metadata" true false (refField b!"j5.state.v1" b!"StateMetadata"),
       .mk b!"keys" true false (.objectRef [] (componentName e b!"Keys") true []),
       .mk b!"data" true false (innerRef e b!"Data"),
-      .mk b!"status" true false (.enumRef [] (componentName e b!"Status") [] true) ]
+      .mk b!"status" true false (.enumRef [] (componentName e b!"Status") [] (some (defaultFilters e))) ]
     [] (some ⟨snakeName e, .state⟩)
 
 def eventTypeName (e : Entity) : Str := componentName e b!"EventType"
@@ -160,7 +167,7 @@ def publishTopic (pkg : Str) (e : Entity) : Topic :=
             .mk b!"keys" true false (refField [] (componentName e b!"Keys")),
             .mk b!"event" true false (.oneofRef [] (componentName e b!"EventType") [] false),
             .mk b!"data" true false (innerRef e b!"Data"),
-            .mk b!"status" true false (.enumRef [] (componentName e b!"Status") [] false) ] } }
+            .mk b!"status" true false (.enumRef [] (componentName e b!"Status") [] none) ] } }
 
 def summaryTopicName (e : Entity) (s : Summary) : Str :=
   if s.name = [] then toCamel e.name ++ b!"Summary" else toCamel e.name ++ toCamel s.name
